@@ -44,16 +44,33 @@ structure OK (g : FCfg) : Prop where
   rq : g.K1.rq = g.p.request
   capK : g.K1.cap = g.cap
   fuel : g.cap / 16 + 16 ≤ 1000
+
+/-- `OK` without the model-fuel bound: the `4·cap` term of the handler fuel pays for `cap/16` (all the lemmas
+below need only this). -/
+structure OKu (g : FCfg) : Prop where
+  wf : WellFormedPreamble g.p g.recs
+  role : g.p.role = 3
+  pairs : ∀ q ∈ g.p.pairs, (NV.enc q).length ≤ g.cap
+  noise : NoiseFits g.cap g.recs
+  k1 : g.K1.OK
+  k2 : g.K2.Cut
+  fol : Follows g.K1 g.K2
+  e1 : g.K1.E = ⟨g.p.id, g.p.role, 5, g.mc⟩
+  rq : g.K1.rq = g.p.request
+  capK : g.K1.cap = g.cap
+
+theorem OK.toU {g : FCfg} (ok : g.OK) : g.OKu :=
+  ⟨ok.wf, ok.role, ok.pairs, ok.noise, ok.k1, ok.k2, ok.fol, ok.e1, ok.rq, ok.capK⟩
 end FCfg
 
-theorem fpid_lt {g : FCfg} (ok : g.OK) : 0 < g.p.id ∧ g.p.id < 65536 := by
+theorem fpid_lt {g : FCfg} (ok : g.OKu) : 0 < g.p.id ∧ g.p.id < 65536 := by
   have h := ok.wf
   generalize g.recs = rs at h
   induction h with
   | noise r hn t ih => exact ih
   | «begin» pad res body5 hb hp hid hrole hl t => exact hid
 
-theorem fns {g : FCfg} (ok : g.OK) : NoStuckW g.cap g.mc g.W := noStuck_of ok.wf g.K1.X g.b g.mc ok.pairs ok.noise
+theorem fns {g : FCfg} (ok : g.OKu) : NoStuckW g.cap g.mc g.W := noStuck_of ok.wf g.K1.X g.b g.mc ok.pairs ok.noise
 
 def FEv1 (g : FCfg) (t : Transport) : Prop := hsCount t.events = g.hs0 + 1 ∧ hsEvent g.p.request ∈ t.events
 
@@ -111,7 +128,7 @@ theorem FRes.mono {g : FCfg} {N M : Nat} {c : Conn} (h : FRes g N c) (hm : N ≤
   exact ⟨c', r, hh.mono hm, hl2, ho⟩
 
 /-- what the second `readAll` does to the handler poll -/
-theorem second_hp {g : FCfg} (ok : g.OK) (fuel : Nat) (r : AReq) (sub : HSub) (e : Run.Env) (dO : Bytes)
+theorem second_hp {g : FCfg} (ok : g.OKu) (fuel : Nat) (r : AReq) (sub : HSub) (e : Run.Env) (dO : Bytes)
     (hs : RSt g.K2 g.L1 g.K1.O r e.mutex e.tr (accOf sub) dO) (hb : Ben e.tr) (hem : e.tr.endMode = .eof)
     (hfu : g.cap / 32 + 3 * e.tr.input.length + 6 ≤ fuel) :
     (∃ (r' : AReq) (acc' : Bytes) (e' : Run.Env) (dO' : Bytes),
@@ -159,13 +176,16 @@ theorem ffin_of {g : FCfg} {c : Conn} {e' : Run.Env} (hev : FEv1 g c.env.tr) (hr
     simp
 
 /-- One poll that starts inside the second `readAll`. -/
-theorem r2_poll {g : FCfg} (ok : g.OK) {c : Conn} {r : AReq} {sub : HSub} {dO : Bytes}
+theorem r2_poll {g : FCfg} (ok : g.OKu) {c : Conn} {r : AReq} {sub : HSub} {dO : Bytes}
     (hph : c.phase = .handler r (fH2 g sub))
     (hs : RSt g.K2 g.L1 g.K1.O r c.env.mutex c.env.tr (accOf sub) dO) (hb : Ben c.env.tr)
     (hem : c.env.tr.endMode = .eof) (hev : FEv1 g c.env.tr) (hr1 : rEvent g.K1.C ∈ c.env.tr.events)
     (hsc : c.scripts = g.more) : FRes g 1 c := by
-  have hfu := ok.fuel
-  rcases second_hp ok (handlerFuel c.env r) r sub c.env dO hs hb hem (by unfold handlerFuel; omega) with
+  have hfu := handlerFuel_ge' c.env r
+  obtain ⟨G0, hi0⟩ := hs.inv
+  have hcapr := hi0.capK
+  have hc2 : g.K2.cap = g.cap := ok.fol.cap.trans ok.capK
+  rcases second_hp ok (handlerFuel c.env r) r sub c.env dO hs hb hem (by omega) with
     ⟨r', acc', e', dO', d1, d3, d5, d6, d8, d9⟩ | ⟨r', e', d1, d3, d4, d8, d9⟩
   · have hstep := C07.handler_step c r _ hph
     rw [d1] at hstep
@@ -179,18 +199,19 @@ theorem r2_poll {g : FCfg} (ok : g.OK) {c : Conn} {r : AReq} {sub : HSub} {dO : 
       Or.inr ⟨rfl, ffin_of hev (d9.mem_events hr1) d9 d3 d4 hsc⟩⟩
 
 /-- One poll that starts inside the first `readAll`. -/
-theorem r1_poll {g : FCfg} (ok : g.OK) {c : Conn} {r : AReq} {sub : HSub} {dO : Bytes}
+theorem r1_poll {g : FCfg} (ok : g.OKu) {c : Conn} {r : AReq} {sub : HSub} {dO : Bytes}
     (hph : c.phase = .handler r (fH1 g sub))
     (hs : RSt g.K1 g.L1 [] r c.env.mutex c.env.tr (accOf sub) dO) (hb : Ben c.env.tr)
     (hem : c.env.tr.endMode = .eof) (hev : FEv1 g c.env.tr) (hsc : c.scripts = g.more) : FRes g 1 c := by
-  have hfu := ok.fuel
+  have hfu := handlerFuel_ge' c.env r
   have hstep := C07.handler_step c r _ hph
   obtain ⟨G0, hi0⟩ := hs.inv
+  have hcapr := hi0.capK
   have hrl := hi0.rem_le ok.k1
   have hc1 := ok.capK
   rcases readAll_run ok.k1 (L := g.L1) (P := []) (.setStream 8 :: .readAll :: g.rest2) [] true
       (2 * ((g.K1.C.length - (accOf sub).length) / 64) + 2 * c.env.tr.input.length + 2) (handlerFuel c.env r)
-      r sub c.env dO 1 (by omega) (by unfold handlerFuel; omega) (fun h => by omega) hb hs with
+      r sub c.env dO 1 (by omega) (by omega) (fun h => by omega) hb hs with
     ⟨r', acc', e', dO', d1, d3, d5, d6, d8, d9⟩ |
     ⟨r', e', f', d1, d2, d3, dl, dm, d4, d5, d6, dw, d8, d9⟩
   · have d1' : handlerPoll (handlerFuel c.env r) r (fH1 g sub) c.env =
@@ -222,7 +243,6 @@ theorem r1_poll {g : FCfg} (ok : g.OK) {c : Conn} {r : AReq} {sub : HSub} {dO : 
     have hb2 : Ben ((e'.ev (rEvent g.K1.C)).ev "s=ok").tr := hb.step hs1
     rcases second_hp ok f2 r2 .fresh ((e'.ev (rEvent g.K1.C)).ev "s=ok") [] hs2' hb2 (hs1.em.trans hem)
         (by show g.cap / 32 + 3 * e'.tr.input.length + 6 ≤ f2
-            unfold handlerFuel at d2
             omega) with
       ⟨r3, acc3, e3, dO3, q1, q3, q5, q6, q8, q9⟩ | ⟨r3, e3, q1, q3, q4, q8, q9⟩
     · rw [heq, q1] at hstep
@@ -245,7 +265,7 @@ theorem r1_poll {g : FCfg} (ok : g.OK) {c : Conn} {r : AReq} {sub : HSub} {dO : 
 
 /-- **The handler start** on the cut wire: `parse_request` has consumed `F1`, its request parser is
 `done`, the final `write_all` of its replies completes. -/
-theorem fhandler_start {g : FCfg} (ok : g.OK) {c1 : Conn} {F1 rest : Bytes} {t' : Transport}
+theorem fhandler_start {g : FCfg} (ok : g.OKu) {c1 : Conn} {F1 rest : Bytes} {t' : Transport}
     (hph : c1.phase = .parseReq (track g.cap g.mc F1) (.writing rest true))
     (hw : F1 ++ c1.env.tr.input = g.W) (hstop1 : c1.stop = false)
     (hrem1 : (run .header F1 g.mc).rem.length ≤ g.cap)
@@ -278,7 +298,7 @@ theorem fhandler_start {g : FCfg} (ok : g.OK) {c1 : Conn} {F1 rest : Bytes} {t' 
     exact ⟨e1, hFe, hwire, by rw [hlog, hrun]; rfl, he1len, hstep⟩
   · rw [hf] at hnf; cases hnf
 
-theorem frinv_start {g : FCfg} (ok : g.OK) {e1 input : Bytes}
+theorem frinv_start {g : FCfg} (ok : g.OKu) {e1 input : Bytes}
     (hlen : e1.length ≤ g.cap) (hwire : e1 ++ input = g.K1.X) :
     RInv g.K1 (AReq.new (Str.Parser.fromParser g.cap g.p.request e1 g.mc)) e1 input [] [] := by
   have hstart : C03SI.Start ⟨g.p.id, g.p.role, 5, g.mc⟩ (Str.Parser.fromParser g.cap g.p.request e1 g.mc) :=
@@ -290,7 +310,7 @@ theorem frinv_start {g : FCfg} (ok : g.OK) {e1 input : Bytes}
   rw [this]; rfl
 
 /-- A poll that is inside `parse_request`. -/
-theorem fparse_poll {g : FCfg} (ok : g.OK) {c : Conn} {F : Bytes} (hst : PSt g.cap g.mc g.W g.L0 [] c F)
+theorem fparse_poll {g : FCfg} (ok : g.OKu) {c : Conn} {F : Bytes} (hst : PSt g.cap g.mc g.W g.L0 [] c F)
     (hem : c.env.tr.endMode = .eof)
     (hsc : c.scripts = (g.hscript, true) :: g.more) (hm : c.env.mutex = none)
     (hev : hsCount c.env.tr.events = g.hs0) : FRes g (2 * c.env.tr.input.length + 6) c := by
@@ -345,7 +365,7 @@ theorem fparse_poll {g : FCfg} (ok : g.OK) {c : Conn} {F : Bytes} (hst : PSt g.c
       simp only [List.length_append] at *
       omega
 
-theorem fstage_poll {g : FCfg} (ok : g.OK) {c : Conn} (hst : FStage g c) (hem : c.env.tr.endMode = .eof) :
+theorem fstage_poll {g : FCfg} (ok : g.OKu) {c : Conn} (hst : FStage g c) (hem : c.env.tr.endMode = .eof) :
     FRes g (2 * c.env.tr.input.length + 6) c := by
   cases hst with
   | parse h1 h2 h3 h4 => exact fparse_poll ok h1 hem h2 h3 h4
@@ -363,7 +383,7 @@ theorem FStage.cong {g : FCfg} {c c' : Conn} (h : FStage g c) (hph : c'.phase = 
     exact .r2 (hph.trans h1) (h2.cong hmx hs) (hs.ben h3) ⟨hs.hs.trans h4.1, hs.mem h4.2⟩ (hs.mem h5) (hsc.trans h6)
 
 /-- **The executor** on a wire cut inside the stream. -/
-theorem fmid_run {g : FCfg} (ok : g.OK) : ∀ (A : Nat) (c : Conn) (n fuel : Nat),
+theorem fmid_run {g : FCfg} (ok : g.OKu) : ∀ (A : Nat) (c : Conn) (n fuel : Nat),
     FStage g c → c.env.tr.endMode = .eof → c.env.segs = [] → ans c.env.tr ≤ A → A + 1 ≤ fuel →
     2 * c.env.tr.input.length + 6 ≤ 100000 →
     ∃ c', runTask fuel c n none = (c', "RET") ∧ FFin g c' := by
@@ -408,6 +428,7 @@ theorem fmid_run_start {g : FCfg} (ok : g.OK) {c : Conn} {n fuel : Nat}
     (hsc : c.scripts = (g.hscript, true) :: g.more) (hev : hsCount c.env.tr.events = g.hs0)
     (hf : ans c.env.tr + 1 ≤ fuel) (hlen : 2 * c.env.tr.input.length + 7 ≤ 100000) :
     ∃ c', runTask fuel c n none = (c', "RET") ∧ FFin g c' := by
+  have ok := ok.toU
   obtain ⟨f, rfl⟩ : ∃ f, fuel = f + 1 := ⟨fuel - 1, by omega⟩
   obtain ⟨hsame, hph0, hsc0, hstop0, hmx, hsg, hwk⟩ := prePoll_same c n hsegs
   rw [runTask_succ]
